@@ -1442,6 +1442,25 @@ fn main() {
                     n_small += 1;
                 }
             }
+            // lagging AND the history busy: the subscriber attaches first and does not read while the producer emits
+            // cap + 1 or more frames (its receiver overflows), then it reads while the producer is parked inside the emit
+            // of the next frame (holding the buffer lock: the refill cannot have the history now and has to come back for
+            // it), then everything finishes and it reads again
+            if *kind != Kind::Thread {
+                let recs: Vec<usize> = trace.iter().enumerate().filter(|(_, p)| **p == kind.rec_point()).map(|(i, _)| i + 1).collect();
+                for cap in caps {
+                    for (k, at) in recs.iter().enumerate() {
+                        if k < cap + 1 {
+                            continue;
+                        }
+                        let mut s = vec![1, 1];
+                        s.extend(vec![0; *at]);
+                        s.push(1);
+                        cases.push(Case { kind: *kind, load: load.clone(), subs: 1, sched: s, others: 0, reads: 1, loss: 0, probe: true, cap: *cap });
+                        n_small += 1;
+                    }
+                }
+            }
             res.notes.push(format!("{} {}: {} small-channel cases (capacity {:?})", kind.name(), load.label(), n_small, caps));
         }
         // the END of the run: run_session / finalize_snapshot write the snapshot file from the history buffer after the last
